@@ -87,7 +87,7 @@ def install(cx, rec):
     cx.patch(pe.Corr, 'is_matrix_symmetric', lambda self: False)      # hashing of symbolic data is not modelled: always symmetrise
 
 
-def mk_matrix_corr(cx, T, N, pattern):
+def mk_matrix_corr(cx, T, N, pattern, stem='g'):
     import pyerrors as pe
     content = []
     for t in range(T):
@@ -97,7 +97,7 @@ def mk_matrix_corr(cx, T, N, pattern):
         m = np.empty((N, N), dtype=object)
         for i in range(N):
             for j in range(N):
-                m[i, j], _ = lib.mk_obs(cx, 'g%d_%d%d' % (t, i, j), {'e|r1': CFG})
+                m[i, j], _ = lib.mk_obs(cx, '%s%d_%d%d' % (stem, t, i, j), {'e|r1': CFG})
                 if i == j:
                     m[i, j] = m[i, j] + 2.0 * N        # generic replay data are then diagonally dominant (positive definite); still arbitrary symbolically
         content.append(m)
@@ -176,7 +176,7 @@ def h_prune(cx, N, Ntrunc, T, pattern, tproj=2, t0proj=1, base=False):
     rec = {}
     install(cx, rec)
     corr = mk_matrix_corr(cx, T, N, pattern)
-    bm = mk_matrix_corr(cx, T, N, [True] * T) if base else None
+    bm = mk_matrix_corr(cx, T, N, [True] * T, stem='b') if base else None          # its own symbols: base matrix and pruned correlator are different matrices
     calls = []
     real_gevp = pe.Corr.GEVP
 
